@@ -89,7 +89,12 @@ def mechanism(e, arg=None):
 DEGENERATE = ["</>", "</ >", "</\t>", "<>", "< >", "</", "<", "<//>", "</ />",
               "%", "% ", "%define", "%define ", "%include", "%import  ", "()",
               ")", "(", "$", "=", "</ a>", "</a b>", "</a/>", "<a", "a>",
-              "<a b c>", "<a  >", "< a>", "<a/ b>", "<a b/c/>"]
+              "<a b c>", "<a  >", "< a>", "<a/ b>", "<a b/c/>",
+              # arguments that expand to nothing, pieces of directive names
+              "%define zcve\n%define $zcve", "%define zcve\n%define ${zcve} x",
+              "%define zcve\n%include $zcve", "%define zcve\n%import $zcve",
+              "%define $(ZCV_EMPTY)", "%include $(ZCV_EMPTY)", "%inc f",
+              "%def a b", "%e x", "%imp p"]
 
 
 def mutate_string(rng, s, n=None):
@@ -474,6 +479,7 @@ def size_texts():
 
 def run_shard(ctx):
     import ZConfig
+    os.environ["ZCV_EMPTY"] = ""
     rng = ctx.rng("mut")
     pool = []
     for p in cc.pairs(ctx, N_MODELS[ctx.tier], TEXTS[ctx.tier],
@@ -883,6 +889,7 @@ def gone_cwd_cases(ctx, dschema, only=None):
 
 
 def replay(ctx, case):
+    os.environ["ZCV_EMPTY"] = ""
     import ZConfig
     fam = case.get("family")
     if fam == "gone-cwd":
